@@ -659,7 +659,7 @@ func c13Cond(rng *rand.Rand, addrs []c13Addr) string {
 }
 
 func c13Gen(rng *rand.Rand, tier string, w *bufio.Writer) {
-	docs, pfEvery := 2600, 40
+	docs, pfEvery := 2600, 15
 	if tier == "thorough" {
 		docs, pfEvery = 60000, 60
 	}
@@ -699,6 +699,28 @@ func c13Gen(rng *rand.Rand, tier string, w *bufio.Writer) {
 		"parse 0101",
 		"parse -",
 		"parse 81d9206161616161616161616161616161616161616161616161616161616161616101", // str8 key of length 32
+		// PatchFields: every status of classifyPatchError and of the content / prefix checks
+		"pf absent 1 - - set:61:01",                    // CREATED from the empty-map seed
+		"pf absent 0 - - set:61:01",                    // KEY_NOT_FOUND
+		"pf absent 1 81a17801 - inc:78:02",             // CREATED from a seed
+		"pf absent 1 c1 - set:61:01",                   // invalid seed → TYPE_MISMATCH
+		"pf absent 1 01 - set:61:01",                   // non-map seed: SET on a leaf root → TYPE_MISMATCH
+		"pf b:c70081a17801 0 - - set:79:02",            // PATCHED
+		"pf b:c70081a17801 1 c1 - set:79:02",           // existing key, invalid seed still rejected
+		"pf b:c70081a17801 0 - eq:78:02 set:79:02",     // CONDITION_NOT_MET
+		"pf b:c70081a17801 0 - - inc:78:a161",          // TYPE_MISMATCH
+		"pf b:c70081a17801 0 - - set:782e:01",          // malformed path → PATH_INVALID
+		"pf b:c70081a17801 0 - - set:79:",              // ErrInvalidOp (empty value) → PATH_INVALID
+		"pf b:c70081a17801 0 - - unk:79:01",            // unknown op kind → PATH_INVALID
+		"pf b:c70081a17801 0 - unk:78:01 set:79:01",    // unknown condition op → PATH_INVALID
+		"pf b:c7008101a17801 0 - - set:79:02",          // non-string key body → ENCODING_NOT_SUPPORTED
+		"pf b:c70081a178 0 - - set:79:02",              // truncated body → ENCODING_NOT_SUPPORTED
+		"pf b:81a17801 0 - - set:79:02",                // no magic prefix → ENCODING_NOT_SUPPORTED
+		"pf b:c7 0 - - set:79:02",                      // one byte only
+		"pf b:c70181a17801 0 - - set:79:02",            // wrong second prefix byte
+		"pf other 0 - - set:79:02",                     // not a ByteArray → TYPE_MISMATCH
+		"pf b:c70081a17801 0 - - set:79:c1",            // malformed value
+		"pf b:c70081a166cb7ff8000000000000 0 - eq:66:cb7ff8000000000000 set:7a:01", // NaN condition
 	} {
 		fmt.Fprintln(w, l)
 	}
